@@ -6,6 +6,7 @@
 #include <memory>
 #include "bitserializer/types/std/optional.h"
 #include "bitserializer/types/std/memory.h"
+#include "bitserializer/types/std/vector.h"
 namespace verif_inst {
 using namespace BitSerializer;
 // abstract array scope of some archive in load mode: only declarations - every call is a contract-only callee
@@ -15,8 +16,10 @@ public:
   size_t GetEstimatedSize() const;
   bool IsEnd() const;
   bool SerializeValue(int& value);
+  bool SerializeValue(bool& value);
 };
 bool load_optional(AbsLoadArrayScope& scope, std::optional<int>& v) { return BitSerializer::Serialize(scope, v); }
 bool load_unique(AbsLoadArrayScope& scope, std::unique_ptr<int>& v) { return BitSerializer::Serialize(scope, v); }
+void load_vector_bool(AbsLoadArrayScope& scope, std::vector<bool>& cont) { BitSerializer::SerializeArray(scope, cont); }
 void load_vector(AbsLoadArrayScope& scope, std::vector<int>& cont) { BitSerializer::Detail::SerializeContainer(scope, cont); }
 }
